@@ -32,7 +32,7 @@ from ..runner import say, VERIF, OUT, EVID, load_known
 LEVEL = "fault_enumeration"
 SIZES = {  # children x sessions per child, alloc workloads
     "quick": {"children": 16, "sessions": 16, "workloads": 16},
-    "thorough": {"children": 64, "sessions": 40, "workloads": 256},
+    "thorough": {"children": 64, "sessions": 120, "workloads": 512},
 }
 CHILD_TIMEOUT = {"quick": 600, "thorough": 3000}
 RULE = ("(a) for each seeded workload (n forecasts x m members, ties, obs "
